@@ -121,7 +121,7 @@ func verifC16_guard() {
 	t.endMode = vEndBlock
 	c := vNewConn(t, client, vCopts(vParam("deflate", 0)), 16, 32)
 	// reach the state through the public API: a Close frame goes out (the peer never answers: writeClose only)
-	err := c.writeClose(StatusNormalClosure, "bye")
+	err := c.writeClose(vBG, StatusNormalClosure, "bye")
 	vAssert(err == nil, "C16.guard.setup")
 	before := len(t.out)
 	vReach("C16.guard.close-sent")
@@ -138,7 +138,7 @@ func verifC16_guard() {
 	}
 	vAssert(len(t.out) == before, "C16.guard.nothing-emitted")
 	// a second Close frame is refused as well
-	c.writeClose(StatusGoingAway, "again")
+	c.writeClose(vBG, StatusGoingAway, "again")
 	if vIsOpen(c) {
 		c.bw.Flush()
 	}
